@@ -177,6 +177,7 @@ structure M where
   inRun : Bool := false
   fired : Nat := 0                 -- callbacks run so far in this call
   polled : Bool := false           -- a poll was answered in this call
+  looked : Bool := false           -- a poll has come back in this call since its latest callback (or since its start)
   startRunnable : Bool := false    -- the call started with a pending immediate or an expired timer
   startIntr : Bool := false        -- the call started with an interrupt request already pending
   mustFire : Bool := false         -- a blocking poll woke for a registered descriptor / expired timer
@@ -235,7 +236,17 @@ def checkPoll (m : M) (timeout : Int) : Except String Unit := do
     before the call): the pass may still run the one event it comes across, then dispatching stops
     (`cbEnd` with `intr` set), and the call returns 0. -/
 def pollIntr (m : M) (timeout : Int) (adv : Nat) : M :=
-  { m with clock := m.clock + adv, intr := true, stop := if timeout ≠ 0 then some 0 else m.stop }
+  { m with clock := m.clock + adv, intr := true, looked := true, stop := if timeout ≠ 0 then some 0 else m.stop }
+
+/-! "A ready socket wins over an expired timer" needs more than the latest poll's answer: the monitor learns about
+readiness from poll answers only, and so does the loop.  A callback may make a registered descriptor ready (it writes to
+a socket pair, a peer answers meanwhile), so a timer callback is in order only if the loop has looked at the registered
+descriptors after the previous callback of this call: `looked` is false when the call starts and after every callback,
+true once a poll has come back (answered — ready set or nothing —, or cut short by a signal whose handler requested an
+interrupt: for a waiting poll that stops dispatching anyway, for the non-blocking one the pass may finish, see
+`pollIntr`; a plain EINTR is not a look, the poll is issued again).  With no socket registration there is nothing to look
+at.  A loop that remembers "the last poll found nothing and nothing was registered since" and goes from one expired timer
+straight to the next is rejected: `timer N run without a look at the registered descriptors since the previous callback`. -/
 
 def step (m : M) : Ev → Except String M
   | .op (.regImm id p) .ok => pure { dropId m id with imms := (dropId m id).imms ++ [⟨id, p⟩] }
@@ -262,7 +273,7 @@ def step (m : M) : Ev → Except String M
   | .op (.clock us) _ => pure { m with clock := m.clock + us }
   | .op _ _ => pure m
   | .runBegin =>
-      pure { m with inRun := true, fired := 0, polled := false, startRunnable := runnable m,
+      pure { m with inRun := true, fired := 0, polled := false, looked := false, startRunnable := runnable m,
                     startIntr := m.intr, mustFire := false, stop := none }
   | .poll timeout adv fds out => do
       if m.stop.isSome then throw "poll issued after dispatching had to stop"
@@ -270,14 +281,14 @@ def step (m : M) : Ev → Except String M
       match out with
       | .ok =>
           let nets := m.nets.map (fun n => { n with ready := (revOf fds n.fd).dir n.d || (revOf fds n.fd).errhup })
-          let m' := { m with nets, clock := m.clock + adv, polled := true }
+          let m' := { m with nets, clock := m.clock + adv, polled := true, looked := true }
           pure { m' with mustFire := m.mustFire || (timeout ≠ 0 && (nets.any (·.ready) || expired m')) }
       | .eintr => pure { m with clock := m.clock + adv }
       | .stuck => pure (pollIntr m timeout adv)
       | .intr => pure (pollIntr m timeout adv)
   | .cb id => do
       if m.stop.isSome then throw s!"callback {id} run after dispatching had to stop (non-zero status or interrupt request)"
-      let m' := { dropId m id with fired := m.fired + 1, mustFire := false }
+      let m' := { dropId m id with fired := m.fired + 1, mustFire := false, looked := false }
       match m.imms.find? (·.id == id) with
       | some i =>
           match nextImm m.imms with
@@ -293,6 +304,8 @@ def step (m : M) : Ev → Except String M
           | some t =>
               if m.nets.any (·.ready) then throw s!"timer {id} run while a socket reported ready by the latest poll is waiting"
               else if m.tms.any (fun u => u.deadline < t.deadline) then throw s!"timer {id} run before a timer with an earlier deadline"
+              else if !m.nets.isEmpty && !m.looked then
+                throw s!"timer {id} run without a look at the registered descriptors since the previous callback"
               else pure m'
           | none => pure m'           -- not a live registration: C04's business
   | .cbEnd rc =>
